@@ -240,7 +240,7 @@ func C14Scenarios() []sched.Scenario {
 func (c14) Explore(tier string, seed int64, deadlineSec int) *engine.Report {
 	rep := &engine.Report{ByClass: map[string]int64{}, ByFamily: map[string]int64{}, Outcomes: map[uint64]struct{}{}, Exhaustive: true, Workers: 1, Extra: map[string]interface{}{}}
 	deadline := time.Now().Add(time.Duration(deadlineSec) * time.Second)
-	maxSched := 6000
+	maxSched := 3000
 	if tier == "thorough" {
 		maxSched = 600000
 	}
